@@ -21,6 +21,24 @@ static size_t layoutBank(unsigned version, unsigned m, unsigned p)
     size_t ins = version >= 2 ? 69 : 65;
     return 11 + (version >= 2 ? 2 : 0) + 2 + 2 + 1 + (version >= 2 ? 34 * (size_t)(m + p) : 0) + ins * 128 * (size_t)(m + p);
 }
+// a capacity that ends exactly at (or one byte around) a field boundary of some record of the image: the header, one of the
+// 34-byte bank records (name[32], lsb, msb) or one of the 65/69-byte instrument records
+static size_t boundaryCapacity(unsigned version, unsigned m, unsigned p, double d)
+{
+    const size_t head = 11 + (version >= 2 ? 2 : 0) + 2 + 2 + 1, nMeta = version >= 2 ? (size_t)(m + p) : 0, ins = version >= 2 ? 69 : 65, nIns = 128 * (size_t)(m + p);
+    uint64_t h = (uint64_t)(d * 4e9); h ^= h >> 13; h *= 0x9E3779B97F4A7C15ull; h ^= h >> 29;
+    static const int metaOff[] = { 0, 1, 31, 32, 33 };
+    static const int insOff[] = { 0, 1, 31, 32, 33, 34, 35, 36, 37, 43, 44, 51, 58, 64, 65, 66, 67, 68 };
+    static const int headOff[] = { 0, 9, 10, 11, 12, 13, 14, 15, 16, 17 };
+    size_t cap;
+    switch(nMeta + nIns ? h % 10 : 0)
+    {
+    case 0: cap = (size_t)headOff[(h >> 8) % 10]; if(cap > head) cap = head; break;
+    case 1: case 2: case 3: case 4: if(nMeta) { cap = head + 34 * (size_t)((h >> 8) % nMeta) + (size_t)metaOff[(h >> 40) % 5]; break; } /* fallthrough */
+    default: { size_t rec = (h >> 8) % nIns; if(((h >> 4) & 3) == 0) rec = rec % 3; if(((h >> 4) & 3) == 1) rec = nIns - 1 - rec % 3; int o = insOff[(h >> 40) % 18]; if((size_t)o > ins) o = (int)ins; cap = head + 34 * nMeta + ins * rec + (size_t)o; break; }
+    }
+    return cap;
+}
 static size_t layoutInst(unsigned version) { return 11 + (version >= 2 ? 2 : 0) + 1 + (version >= 2 ? 65 : 65); }
 
 class C15 : public Check
@@ -28,8 +46,8 @@ class C15 : public Check
 public:
     const char *id() { return "C15"; }
     const char *opName(int k) { return vName(k); }
-    int quickRuns() { return 6000; }
-    int quickSeconds() { return 60; }
+    int quickRuns() { return 120000; }
+    int quickSeconds() { return 90; }
     int thoroughSeconds() { return 900; }
     const char *rule()
     {
@@ -48,7 +66,7 @@ public:
             Op o; o.kind = (int)r.weighted({ 55, 25, 20 });
             o.a[0] = (int64_t)r.below(1u << 30);            // value seed
             o.a[1] = r.pick<int>({ 2, 2, 1, 0 });            // version
-            o.a[2] = (int64_t)r.below(10);                   // capacity class
+            o.a[2] = (int64_t)r.below(12);                   // capacity class
             o.d = r.unit();                                  // uniform capacity / tear position
             o.a[3] = r.chance(0.4);                          // tear?
             p.ops.push_back(o);
@@ -91,7 +109,7 @@ public:
         return true;
     }
 
-    size_t pickCapacity(const Op &o, size_t needed, int &cls)
+    size_t pickCapacity(const Op &o, size_t needed, int &cls, unsigned version = 0, unsigned m = 0, unsigned pc = 0)
     {
         cls = (int)o.a[2];
         switch(cls)
@@ -99,6 +117,7 @@ public:
         case 0: return 0; case 1: return 1; case 2: return 10; case 3: return 11; case 4: return 12;
         case 5: return needed ? needed - 1 : 0; case 6: return needed; case 7: return needed + 7;
         case 8: return (size_t)(o.d * (double)needed);
+        case 9: case 10: if(version) { size_t c = boundaryCapacity(version, m, pc, o.d); return c < needed ? c : needed; } return needed;
         default: return needed;
         }
     }
@@ -150,7 +169,7 @@ public:
                 // "a buffer of the reported size is enough"; an under-estimate shows up as save-failed-with-enough-room below
                 if(needed != mine) run.count("calculator_overestimates");
                 if(needed < mine) { run.fail("size-calculator-too-small", vName(o.kind), "WOPN_CalculateBankFileSize = " + std::to_string(needed) + " but the format's layout needs " + std::to_string(mine)); WOPN_Free(v); break; }
-                int capCls; size_t cap = pickCapacity(o, needed, capCls);
+                int capCls; size_t cap = pickCapacity(o, needed, capCls, version, v->banks_count_melodic, v->banks_count_percussion);
                 ExactBuf dst(cap);
                 int rc = WOPN_SaveBankToMem(v, dst.p, cap, (uint16_t)reqVersion, 0);
                 Hasher st; st.add((uint64_t)o.kind); st.add(version); st.add((uint64_t)(v->banks_count_melodic + v->banks_count_percussion > 6 ? 2 : (v->banks_count_melodic + v->banks_count_percussion > 2))); st.add((uint64_t)capCls); st.add((uint64_t)(rc != 0)); st.add((uint64_t)o.a[3]);
